@@ -19,7 +19,10 @@ RULE = ("generator -> valid program P; S = random subset of its whole simple sta
         "columns 1-2 with the label in columns 3-5 and continuation lines carrying the sentinel and a mark in column "
         "6; genuine directives (!$omp, !$OMP, !$acc, c$omp) are interleaved. Oracles: enabled -> shape(tree) == "
         "shape(tree(P)) and the directives stay comments; disabled (default) with comments ignored -> shape(tree) == "
-        "shape(tree(P minus S)). non-trivial = |S| >= 2; distinct by SHA-1 of text")
+        "shape(tree(P minus S)). In 30% of the cases a run of whole statements (sentinel lines included) is moved into "
+        "a file and replaced by an INCLUDE line, and both oracles are applied to the including source (the nested "
+        "reader has to treat conditional lines and the source form like the main one). non-trivial = |S| >= 2; "
+        "distinct by SHA-1 of text")
 ASSUMPTIONS = ["statements in S are whole, unlabelled simple statements whose removal leaves a valid program"]
 DECIDING_MONITORS = ("sentinel_lines",)
 
@@ -32,6 +35,9 @@ def make_payload(rng, idx, tier):
     P, meta = gen_program(rng, tier, size=rng.choice([0.5, 1.0, 1.0, 1.5]))
     meta["sel_seed"] = rng.getrandbits(32)
     meta["form"] = rng.choice(["free", "free", "fixed"])
+    # a run of whole statements (sentinel lines among them) moved into an INCLUDE file: the nested reader must
+    # treat conditional lines like the main one
+    meta["inc"] = rng.random() < 0.3
     return program_payload(P, **meta)
 
 
@@ -52,7 +58,9 @@ def select(P, r):
 def render_free(P, S, r):
     lines = []
     nsent = 0
+    starts = []
     for i, s in enumerate(P.stmts):
+        starts.append(len(lines))
         ind = "  " * s.depth
         text = s.src()
         if i in S:
@@ -84,13 +92,15 @@ def render_free(P, S, r):
             lines.append(ind + text)
         if r.random() < 0.08:
             lines.append(r.choice(OMP_DIRECTIVES_FREE))
-    return "\n".join(lines) + "\n", nsent
+    return lines, nsent, starts
 
 
 def render_fixed(P, S, r):
     lines = []
     nsent = 0
+    starts = []
     for i, s in enumerate(P.stmts):
+        starts.append(len(lines))
         text = s.src()
         label = ""
         if s.label:
@@ -130,7 +140,7 @@ def render_fixed(P, S, r):
                     lines.append("     " + mark + c)
         if r.random() < 0.08:
             lines.append(r.choice(OMP_DIRECTIVES_FIXED))
-    return "\n".join(lines) + "\n", nsent
+    return lines, nsent, starts
 
 
 def reader(text, form, **opts):
@@ -145,6 +155,8 @@ def reader(text, form, **opts):
 def parse(text, std, form, **opts):
     try:
         return fp.create(std)(reader(text, form, **opts)), None
+    except SystemExit:
+        return None, "reader called sys.exit"
     except fp.FortranSyntaxError as e:
         return None, str(e)[:160].replace("\n", " | ")
     finally:
@@ -158,10 +170,13 @@ def one(P, std, payload, mons=None):
     if form == "fixed":
         # labels longer than 3 digits do not fit behind a sentinel
         S = {i for i in S}
-    text, nsent = (render_free if form == "free" else render_fixed)(P, S, r)
+    lines, nsent, starts = (render_free if form == "free" else render_fixed)(P, S, r)
+    text = "\n".join(lines) + "\n"
     ref, err = parse(P.canonical(), std, "free")
     if ref is None:
         return None, text, 0
+    if payload.get("inc") and len(P.stmts) >= 4:
+        return one_included(P, std, payload, S, lines, nsent, starts, text, ref, r, mons)
     refshape = shape(ref, FOLD)
     minus = Program([Stmt.from_json(s.to_json()) for i, s in enumerate(P.stmts) if i not in S], P.std)
     mref, err = parse(minus.canonical(), std, "free")
@@ -193,11 +208,82 @@ def one(P, std, payload, mons=None):
     return None, text, len(S)
 
 
+def one_included(P, std, payload, S, lines, nsent, starts, text, ref, r, mons):
+    """lines of statements a..b-1 go to a file; an INCLUDE line takes their place"""
+    import os
+    import shutil
+    import tempfile
+
+    form = payload["form"]
+    n = len(P.stmts)
+    a = r.randrange(1, n - 1)
+    b = r.randrange(a + 1, min(n - 1, a + 10) + 1)
+    la, lb = starts[a], (starts[b] if b < n else len(lines))
+    name = r.choice(["omp_part.inc", "cond.h", "Body.F90", "old.f"])
+    incl = ("      " if form == "fixed" else "  ") + r.choice(["include", "INCLUDE", "Include"]) + " '" + name + "'"
+    main = "\n".join(lines[:la] + [incl] + lines[lb:]) + "\n"
+    body = "\n".join(lines[la:lb]) + "\n"
+    shown = "! ---- main\n" + main + "! ---- " + name + "\n" + body
+    refshape = shape(ref, FOLD)
+    minus = Program([Stmt.from_json(s.to_json()) for i, s in enumerate(P.stmts) if i not in S], P.std)
+    mref, err = parse(minus.canonical(), std, "free")
+    if mref is None:
+        return None, shown, 0
+    work = tempfile.mkdtemp(prefix="vfc15_")
+    try:
+        with open(os.path.join(work, name), "w") as f:
+            f.write(body)
+        on, err = parse(main, std, form, include_omp_conditional_lines=True, ignore_comments=True, include_dirs=[work])
+        if on is None:
+            return viol("included:enabled:rejected", "(%s) conditional lines enabled, statements %d..%d in an include file: %s" % (form, a, b - 1, err)), shown, len(S)
+        g = shape(on, FOLD)
+        if g != refshape:
+            return viol("included:enabled:tree-differs", "(%s) %s" % (form, first_diff(refshape, g))), shown, len(S)
+        off, err = parse(main, std, form, ignore_comments=True, include_dirs=[work])
+        if off is None:
+            return viol("included:disabled:rejected", "(%s) %s" % (form, err)), shown, len(S)
+        g, m = shape(off, FOLD), shape(mref, FOLD)
+        if g != m:
+            return viol("included:disabled:tree-differs", "(%s) %s" % (form, first_diff(m, g))), shown, len(S)
+    finally:
+        shutil.rmtree(work, ignore_errors=True)
+    if mons is not None:
+        mons["sentinel_lines"] += nsent
+        mons["included_runs"] = mons.get("included_runs", 0) + 1
+    return None, shown, len(S)
+
+
+def check_raw(payload):
+    """pinned reproducer: text (+ include files) against the reference text, conditional lines enabled"""
+    import os
+    import shutil
+    import tempfile
+
+    std, form = payload["std"], payload["form"]
+    viols = []
+    work = tempfile.mkdtemp(prefix="vfc15_")
+    try:
+        for name, body in payload.get("files", {}).items():
+            with open(os.path.join(work, name), "w") as f:
+                f.write(body)
+        ref, err = parse(payload["ref_on"], std, "free", ignore_comments=True)
+        on, err = parse(payload["text"], std, form, include_omp_conditional_lines=True, ignore_comments=True, include_dirs=[work])
+        if on is None:
+            viols.append(viol(payload.get("key", "enabled:rejected"), err))
+        elif shape(on, FOLD) != shape(ref, FOLD):
+            viols.append(viol(payload.get("key", "enabled:tree-differs"), first_diff(shape(ref, FOLD), shape(on, FOLD))))
+    finally:
+        shutil.rmtree(work, ignore_errors=True)
+    return {"violations": viols, "digests": [], "monitors": {"sentinel_lines": 1}, "tally": {}}
+
+
 def check(payload):
+    if payload.get("mode") == "raw":
+        return check_raw(payload)
     P = payload_program(payload)
     std = payload["std"]
     viols, digs = [], []
-    mons = {"sentinel_lines": 0}
+    mons = {"sentinel_lines": 0, "included_runs": 0}
     v, text, ns = one(P, std, payload, mons)
     if v is None:
         if ns >= 2:
@@ -214,5 +300,5 @@ def check(payload):
         v["shrunk"] = {"source": qtext, "detail": w["detail"] if w else None}
         v["payload"] = dict(payload, program=Q.to_json())
         viols.append(v)
-    return {"violations": viols, "digests": digs, "monitors": mons, "tally": {"form": [payload["form"]]},
+    return {"violations": viols, "digests": digs, "monitors": mons, "tally": {"form": [payload["form"]], "variant": ["included" if payload.get("inc") else "inline"]},
             "sample": {"form": payload["form"], "text": text[:700]}}
